@@ -105,6 +105,8 @@ def XBState.attach (b : XBState) (n : Node) : XBState :=
 def devinfName : Bytes := b!"syncml:devinf|DevInf"
 def mgmtName : Bytes := b!"syncml:dmddf1.2|MgmtTree"
 
+def xmlNsUri : Bytes := b!"http://www.w3.org/XML/1998/namespace|"
+
 def isBinaryName : Name → Bool
   | .token r => r.opts &&& 1 != 0
   | .literal _ => false
@@ -127,6 +129,8 @@ def xmlElt (lang : Lang) (name : Bytes) (attrs : List (Bytes × Bytes)) : XFrame
       | none => (Name.literal eltName, page))
     | none => (Name.literal eltName, page)
   let as := attrs.map fun (n, v) =>
+    -- the reserved `xml:` attributes come from the namespace-aware parser as "<XML namespace URI>|lang"
+    let n := if xmlNsUri.isPrefixOf n then b!"xml:" ++ n.drop xmlNsUri.length else n
     let an := match lang.attrs with
       | some t => (match encAttr t n v with
         | some (r, _) => AName.token r
